@@ -37,11 +37,11 @@ def hexVal (c : Char) : Option Nat :=
 
 def unhex (s : String) : Option String :=
   if s == "-" then some "" else
-  let rec go : List Char → List Char → Option (List Char)
-    | [], acc => some acc.reverse
-    | a :: b :: rest, acc => do let x ← hexVal a; let y ← hexVal b; go rest (Char.ofNat (x * 16 + y) :: acc)
+  let rec go : List Char → ByteArray → Option ByteArray
+    | [], acc => some acc
+    | a :: b :: rest, acc => do let x ← hexVal a; let y ← hexVal b; go rest (acc.push (x * 16 + y).toUInt8)
     | _, _ => none
-  (go s.toList []).map String.ofList
+  (go s.toList ByteArray.empty).bind String.fromUTF8?
 
 def lower (s : String) : String := String.ofList (s.toList.map Char.toLower)
 
